@@ -1,5 +1,7 @@
 /-
-C02 line-protocol driver over `GPVerif.Model.MLL` (exact ℚ).  One reply line per request line.
+C02 line-protocol driver (exact ℚ): certified `quad?` / `det?` / `inv?` / `looTrue` from `GPVerif.Model.MLL`, and the
+ASSEMBLY definitions REGENERATED from the source (`GPVerif.Gen.MLLAssembly`, translator G7; proved equal to the model in
+Props/C02.lean).  One reply line per request line.
 
   TERM  :=  j s₁…s_j  N v₁…v_N            (shape, row-major values)
   TERMS :=  c TERM×c
@@ -12,6 +14,7 @@ C02 line-protocol driver over `GPVerif.Model.MLL` (exact ℚ).  One reply line p
   sum c m₁…m_c → sumMll
 -/
 import GPVerif.Model.MLL
+import GPVerif.Gen.MLLAssembly
 import GPVerif.Model.Proto
 
 open Proto MLL
@@ -51,7 +54,7 @@ def takeTerms (ts : List String) : Option (List Term × List String) := do
 def colVec (n : Nat) (M : Array (Array Rat)) : Fin n → Rat := fun i => (M[i.1]!)[0]!
 
 def reduceAll (res b : List Nat) (terms : List Term) : List Rat :=
-  terms.map fun t => priorReduce res t.shape t.vals b
+  terms.map fun t => Gen.MLLAssembly.priorReduce res t.shape t.vals b
 
 def stepMll (ts : List String) : Option String := do
   let (k, ts) ← takeNat ts
@@ -70,7 +73,7 @@ def stepMll (ts : List String) : Option String := do
   let L := reduceAll res b add
   match quad? Am rv, det? Am with
   | some q, some d =>
-    let rat := mll (logNormal (1 / 2 : Rat) 0 n q 0) P L nd
+    let rat := Gen.MLLAssembly.mllForward (logNormal (1 / 2 : Rat) 0 n q 0) P L nd
     some s!"{showRat q} {showRat d} {showRat P.sum} {showRat L.sum} {showRat rat}"
   | _, _ => some "singular"
 
@@ -93,15 +96,19 @@ def stepLoo (ts : List String) : Option String := do
     let mv := colVec (k + 1) m
     let P := reduceAll res b pri
     let L := reduceAll res b add
-    let rows := (List.finRange (k + 1)).map fun i => (i, looCode Am yv mv i, looTrue Am yv mv i)
-    if rows.any (fun x => x.2.1.isNone || x.2.2.isNone) then some "singular" else
+    match Am.inv? with
+    | none => some "singular"
+    | some X =>
+    let code := fun i => (Gen.MLLAssembly.looMu Am.toMatrix X.toMatrix yv mv i, Gen.MLLAssembly.looSigma2 Am.toMatrix X.toMatrix i)
+    let rows := (List.finRange (k + 1)).map fun i => (i, code i, looTrue Am yv mv i)
+    if rows.any (fun x => x.2.2.isNone) then some "singular" else
     let items := rows.filterMap fun (i, c, t) =>
-      match c, t with
-      | some (μc, sc), some (μt, st) => some (μc, sc, μt, st, looQuad (yv i) μc sc)
-      | _, _ => none
-    let terms := items.map fun (_, _, _, _, q) => looTerm (1 / 2 : Rat) 0 q
-    let rat := looObjective (1 / 2 : Rat) 0 terms P L (k + 1)
-    let body := " ".intercalate (items.map fun (μc, sc, μt, st, q) =>
+      match t with
+      | some (μt, st) => some (c.1, c.2, μt, st, looQuad (yv i) c.1 c.2, yv i)
+      | none => none
+    let terms := items.map fun (μc, sc, _, _, _, yi) => Gen.MLLAssembly.looTermExpr (1 / 2 : Rat) 0 yi μc sc
+    let rat := Gen.MLLAssembly.looReduce (1 / 2 : Rat) 0 terms P L (k + 1)
+    let body := " ".intercalate (items.map fun (μc, sc, μt, st, q, _) =>
       s!"{showRat μc} {showRat sc} {showRat μt} {showRat st} {showRat q}")
     some s!"{k + 1} {body} {showRat rat}"
 
@@ -109,7 +116,7 @@ def stepSum (ts : List String) : Option String := do
   let (c, ts) ← takeNat ts
   if ts.length ≠ c then none else
   let ms ← parseRats? ts
-  some (showRat (sumMll ms))
+  some (showRat (Gen.MLLAssembly.sumMllExpr ms))
 
 def step (line : String) : String :=
   let r := match tokens line with
